@@ -454,6 +454,7 @@ def postFeature (K : Consts) (ts : TypeSystem) (tsIdx ci : Nat) (sofas : List (I
       match sofas.find? (fun p => p.1 == i) with
       | some p => Heap.setSlot hp a "sofa" (.sofa ci p.2.sofaID)
       | none => throw .keyError
+    | .none => pure hp                       -- a structure that is not indexed need not have a sofa
     | _ => throw .keyError
   else if isStrArr then
     if f.name == "elements" && v == .none then Heap.setSlot hp a "elements" (.refs []) else pure hp
@@ -589,13 +590,24 @@ structure Build where
   cas : Cas
   heap : Heap
   converted : List Int := []
+  memberSofas : List (Int × Val) := []     -- first-seen `sofa` value of every member that has one
 
-/-- index the members of one view (ids remembered as dropped by a lenient first pass are skipped) -/
-def addMembers (ts : TypeSystem) (ci : Nat) (h : Handle) (conv : Offsets.Conv) (lenientIds : List Int)
-    (fss : List (Int × Nat)) : List Int → Build → Except Err Build
+/-- the converter of the sofa a member points to (the document's `sofa` attribute), else the one of the view at hand -/
+def ownConv (sofas : List (Int × PSofa)) (conv : Offsets.Conv) (own : Option Val) : Offsets.Conv :=
+  match own with
+  | some (.sofa _ vn) =>
+    match sofas.find? (fun q => q.2.sofaID == vn) with
+    | some q => convOfText q.2.text
+    | none => conv
+  | _ => conv
+
+/-- index the members of one view (ids remembered as dropped by a lenient first pass are skipped); a structure that
+    is a member of several views has its offsets mapped once, with the text of the sofa the document names -/
+def addMembers (ts : TypeSystem) (ci : Nat) (h : Handle) (conv : Offsets.Conv) (sofas : List (Int × PSofa))
+    (lenientIds : List Int) (fss : List (Int × Nat)) : List Int → Build → Except Err Build
   | [], b => .ok b
   | m :: ms, b =>
-    if lenientIds.contains m then addMembers ts ci h conv lenientIds fss ms b
+    if lenientIds.contains m then addMembers ts ci h conv sofas lenientIds fss ms b
     else
       match lookupFs fss m with
       | .error e => .error e
@@ -603,9 +615,16 @@ def addMembers (ts : TypeSystem) (ci : Nat) (h : Handle) (conv : Offsets.Conv) (
         match b.heap[a]? with
         | none => .error .attributeError
         | some o =>
+          let (own, ms') : Option Val × List (Int × Val) :=
+            match b.memberSofas.find? (fun q => q.1 == m) with
+            | some q => (some q.2, b.memberSofas)
+            | none =>
+              match slot b.heap a "sofa" with
+              | some v => (some v, b.memberSofas ++ [(m, v)])
+              | none => (none, b.memberSofas)
           let r : Except Err (Heap × List Int) :=
-            if isInstanceOf ts o.ty ANNOTATION then
-              match convertOffsets conv b.heap a with
+            if !(b.converted.contains m) && isInstanceOf ts o.ty ANNOTATION then
+              match convertOffsets (ownConv sofas conv own) b.heap a with
               | .error e => .error e
               | .ok hp' => .ok (hp', b.converted ++ [m])
             else .ok (b.heap, b.converted)
@@ -614,7 +633,8 @@ def addMembers (ts : TypeSystem) (ci : Nat) (h : Handle) (conv : Offsets.Conv) (
           | .ok (hp1, cv1) =>
             match Cas.add ts ci b.cas hp1 h a true with
             | .error e => .error e
-            | .ok (c', hp2) => addMembers ts ci h conv lenientIds fss ms { cas := c', heap := hp2, converted := cv1 }
+            | .ok (c', hp2) =>
+              addMembers ts ci h conv sofas lenientIds fss ms { cas := c', heap := hp2, converted := cv1, memberSofas := ms' }
 
 /-- create / fill the view of one sofa and index its members -/
 def buildView (ts : TypeSystem) (ci : Nat) (lenient : Bool) (p : Pass1) (s : PSofa) (b : Build) : Except Err Build :=
@@ -637,7 +657,7 @@ def buildView (ts : TypeSystem) (ci : Nat) (lenient : Bool) (p : Pass1) (s : PSo
       let members := match p.views.find? (fun q => q.1 == s.xid) with
         | some q => q.2.members
         | none => []
-      addMembers ts ci h conv p.lenientIds p.fss members { b with cas := c2 }
+      addMembers ts ci h conv p.sofas p.lenientIds p.fss members { b with cas := c2 }
 
 def buildViews (ts : TypeSystem) (ci : Nat) (lenient : Bool) (p : Pass1) : List (Int × PSofa) → Build → Except Err Build
   | [], b => .ok b
@@ -667,11 +687,29 @@ def convertReferenced (ts : TypeSystem) (p : Pass1) (converted : List Int) : Lis
           | _ => convertReferenced ts p converted rest heap
         else convertReferenced ts p converted rest heap
 
+/-- members get back the sofa the document names for them (`view.add` pointed them to the view read last) -/
+def rehome (fss : List (Int × Nat)) : List (Int × Val) → Heap → Except Err Heap
+  | [], heap => .ok heap
+  | (m, v) :: rest, heap =>
+    match v with
+    | .sofa _ _ =>
+      match lookupFs fss m with
+      | .error e => .error e
+      | .ok a =>
+        match Heap.setSlot heap a "sofa" v with
+        | .error e => .error e
+        | .ok heap' => rehome fss rest heap'
+    | _ => rehome fss rest heap
+
 /-- third pass: build the CAS, its views and indexes -/
 def buildCas (_K : Consts) (ts : TypeSystem) (ci : Nat) (lenient : Bool) (p : Pass1) (hp : Heap) : Except Err Loaded :=
   match buildViews ts ci lenient p p.sofas { cas := Cas.empty, heap := hp } with
   | .error e => .error e
-  | .ok b =>
+  | .ok b0 =>
+    match rehome p.fss b0.memberSofas b0.heap with
+    | .error e => .error e
+    | .ok hpR =>
+    let b : Build := { b0 with heap := hpR }
     match convertReferenced ts p b.converted p.fss b.heap with
     | .error e => .error e
     | .ok heap => .ok { cas := { b.cas with nextXid := p.maxId + 1, nextSofaNum := p.maxNum + 1 }, heap := heap }
